@@ -707,6 +707,43 @@ func genRetriedFlows(r *rng, thorough bool, emit func(FlowScenario)) {
 	}
 }
 
+// node types that differ in what they implement but print the same type name (function-local types, like same-named types of
+// two packages): a plain one is run first, then the ones with a retry budget and / or a fallback, then the plain one again
+func genTwins(r *rng, emit func(FlowScenario)) {
+	t := &tokGen{r: r}
+	mk := func(retry bool, fb string, N int) LeafCfg {
+		return LeafCfg{Retryable: retry, Budget: N, Fb: fb, PrepS: "direct", ExecS: "direct", PostS: "direct", Impl: "twin"}
+	}
+	for _, N := range []int{2, 3, 4} {
+		for rep := 0; rep < 4; rep++ {
+			cfgs := []LeafCfg{mk(false, "absent", N), mk(true, "custom", N), mk(true, "absent", N), mk(false, "custom", N), mk(false, "absent", 1)}
+			// the order after the first (plain) one varies
+			for i := len(cfgs) - 1; i > 1; i-- {
+				j := 1 + r.intn(i)
+				cfgs[i], cfgs[j] = cfgs[j], cfgs[i]
+			}
+			sc := FlowScenario{Kind: "canceled", Ctx0: "live", LeafScripts: []LeafScript{}, BatchScripts: []BatchScript{}}
+			for id := range cfgs {
+				c := cfgs[id]
+				sc.Nodes = append(sc.Nodes, NodeDef{ID: id, Leaf: &c})
+				eff := 1
+				if c.Retryable {
+					eff = c.Budget
+				}
+				// all attempts fail (the fallback decides), or the last attempt succeeds
+				var mask uint
+				if r.chance(50) {
+					mask = 1 << uint(eff-1)
+				}
+				t.next, t.errN = r.intn(30), r.intn(20)
+				sc.LeafScripts = append(sc.LeafScripts, t.leafScript(id, 0, true, mask, eff+1, r.chance(70), postStr(t, 0, "a")))
+				sc.Steps = append(sc.Steps, Step{Run: ip(id)})
+			}
+			emit(sc)
+		}
+	}
+}
+
 // a flow nested in ITSELF (directly: F's table sends a node of F to F; or through a second flow: F inside G inside F), with
 // scripts that make the recursion end: a node like any other as far as routing goes — entered again before the enclosing
 // execution of the same flow object has finished
